@@ -91,6 +91,10 @@ def _args(n):
     return list(n.get("args", []))
 
 
+# read-only numeric methods (&self / by-value receivers of f64 and Vector): evaluating them has no effect on any place
+PURE_NUMERIC = {"sqrt", "abs", "powi", "powf", "recip", "norm_2", "norm_1", "norm_inf", "norm_p", "dot", "exp", "ln", "sin", "cos", "max", "min", "signum", "mul_add"}
+
+
 class Canon:
     def __init__(self, d, known):
         self.d = d
@@ -302,7 +306,7 @@ class Canon:
         return prelude, body.get("stmts", []), body.get("expr")
 
     @staticmethod
-    def _pure(a):
+    def _pure(a, numeric=False):
         """Side-effect free argument expression (arithmetic over locals, fields, literals, element reads, len/clone):
         for a read-only single-expression callee, evaluating it at the parameter's use is the same as at the call."""
         for n in _walk(a):
@@ -318,6 +322,8 @@ class Canon:
             if k == "Block" and not n.get("stmts") and n.get("expr") is not None and not n.get("m"):
                 continue
             if k == "MethodCall" and not n.get("args") and n.get("name") in ("len", "size", "rows", "cols", "clone"):
+                continue
+            if numeric and k == "MethodCall" and n.get("name") in PURE_NUMERIC and len(n.get("args", [])) <= 1:
                 continue
             return False
         return True
@@ -788,7 +794,7 @@ class Canon:
             ch = False
             for st in blk.get("stmts", []):
                 e = _strip(st.get("init") or {}) if st.get("k") == "Let" else _strip(st.get("e") or {}) if st.get("k") == "Semi" else {}
-                if e.get("k") == "Call" and _callee(e) in ("std::mem::replace", "core::mem::replace") and len(e.get("args", [])) == 2 and self._pure(e["args"][1]):
+                if e.get("k") == "Call" and _callee(e) in ("std::mem::replace", "core::mem::replace") and len(e.get("args", [])) == 2 and self._pure(e["args"][1], numeric=True):
                     dest, val = e["args"]
                     d0 = dest
                     while d0.get("k") == "AddrOf":
